@@ -18,21 +18,47 @@ Print Assumptions C11_pools_all_modelled.
 (** * reset completeness, per pooled type: every field of the regenerated field
     list is classified; every Config/State field is (strongly) written on the
     acquire path; every External field is cleared on release. *)
-Theorem C11_reset_complete_VP8Encoder :
+(** lossy.VP8Encoder and its TokenBuffer.  The full statements
+      reset_complete_b lossy_TokenBuffer_fields class_TokenBuffer assigned_TokenBuffer [] = true
+      reset_complete_b lossy_VP8Encoder_fields class_VP8Encoder assigned_VP8Encoder released = true
+    are FALSE of the code as it stands: TokenBuffer.Reset does not re-initialise
+    [mbStart], whose entries MarkMBStart writes only for macroblocks that record
+    tokens (skipped macroblocks keep the previous encode's — or pass's — value) while
+    EmitTokensPartitioned reads every entry.  Hence the encoder's [tokens] field,
+    whose reset is delegated to TokenBuffer.Reset, is not completely reset either.
+    Replayed on the Go code by the harness (history "encode textured image with
+    Partitions >= 1; encode flat image of the same macroblock dimensions"). *)
+Definition C11_reset_complete_VP8Encoder_full_statement : Prop :=
+  reset_complete_b F.lossy_TokenBuffer_fields class_TokenBuffer assigned_TokenBuffer [] = true /\
   reset_complete_b F.lossy_VP8Encoder_fields class_VP8Encoder assigned_VP8Encoder released_VP8Encoder = true.
-Proof. exact reset_complete_VP8Encoder. Qed.
-Print Assumptions C11_reset_complete_VP8Encoder.
+
+Theorem C11_reset_complete_TokenBuffer_refuted :
+  unreset_state F.lossy_TokenBuffer_fields class_TokenBuffer assigned_TokenBuffer = ["mbStart"]
+  /\ reset_complete_b F.lossy_TokenBuffer_fields class_TokenBuffer assigned_TokenBuffer [] = false.
+Proof. exact reset_incomplete_TokenBuffer_refuted. Qed.
+Print Assumptions C11_reset_complete_TokenBuffer_refuted.
+
+Theorem C11_reset_complete_TokenBuffer_partial :
+  reset_complete_b F.lossy_TokenBuffer_fields class_TokenBuffer (assigned_TokenBuffer ++ ["mbStart"]) [] = true.
+Proof. exact reset_complete_TokenBuffer_partial. Qed.
+Print Assumptions C11_reset_complete_TokenBuffer_partial.
+
+Theorem C11_reset_complete_VP8Encoder_refuted :
+  unreset_state F.lossy_VP8Encoder_fields class_VP8Encoder assigned_VP8Encoder = ["tokens"]
+  /\ reset_complete_b F.lossy_VP8Encoder_fields class_VP8Encoder assigned_VP8Encoder released_VP8Encoder = false.
+Proof. exact reset_incomplete_VP8Encoder_refuted. Qed.
+Print Assumptions C11_reset_complete_VP8Encoder_refuted.
+
+Theorem C11_reset_complete_VP8Encoder_partial :
+  reset_complete_b F.lossy_VP8Encoder_fields class_VP8Encoder (assigned_VP8Encoder ++ ["tokens"]) released_VP8Encoder = true.
+Proof. exact reset_complete_VP8Encoder_partial. Qed.
+Print Assumptions C11_reset_complete_VP8Encoder_partial.
 
 Theorem C11_acquire_path_VP8Encoder :
   subset acquire_calls_VP8Encoder F.lossy_VP8Encoder_NewEncoder_calls = true /\
   subset acquire_calls_VP8Encoder F.lossy_VP8Encoder_NewEncoderFromYUV_calls = true.
 Proof. exact acquire_path_VP8Encoder. Qed.
 Print Assumptions C11_acquire_path_VP8Encoder.
-
-Theorem C11_reset_complete_TokenBuffer :
-  reset_complete_b F.lossy_TokenBuffer_fields class_TokenBuffer assigned_TokenBuffer [] = true.
-Proof. exact reset_complete_TokenBuffer. Qed.
-Print Assumptions C11_reset_complete_TokenBuffer.
 
 Theorem C11_reset_complete_lossless_Encoder :
   reset_complete_b F.lossless_Encoder_fields class_lossless_Encoder
@@ -179,12 +205,10 @@ Proof. exact history_all_outputs_fresh. Qed.
 Print Assumptions C11_history_all_outputs_fresh.
 
 (** instantiated with the regenerated lists of the real pooled types *)
-Theorem C11_history_independent_encoders_and_lossless_decoder :
+Theorem C11_history_independent_lossless_and_buffers :
   forall (Args Out Val Shape : Type) (shape : Args -> Val -> Shape)
          (init : Args -> string -> Val) (nilv : Val)
          (gate : Args -> (string -> Val) -> bool) (run : Args -> (string -> Val) -> Out * (string -> Val)),
-    hist_indep Args Out Val Shape shape init nilv gate run
-               F.lossy_VP8Encoder_fields class_VP8Encoder assigned_VP8Encoder released_VP8Encoder /\
     hist_indep Args Out Val Shape shape init nilv gate run
                F.lossless_Encoder_fields class_lossless_Encoder assigned_lossless_Encoder released_lossless_Encoder /\
     hist_indep Args Out Val Shape shape init nilv gate run
@@ -197,14 +221,24 @@ Theorem C11_history_independent_encoders_and_lossless_decoder :
                F.lossy_parallelState_fields class_parallelState assigned_parallelState
                (strongly_written F.lossy_parallelState_putParallelState_writes).
 Proof.
-  intros. exact (conj (history_independent_VP8Encoder _ _ _ _ _ _ _ _ _)
+  intros. exact (
                 (conj (history_independent_lossless_Encoder _ _ _ _ _ _ _ _ _)
                 (conj (history_independent_lossless_Decoder _ _ _ _ _ _ _ _ _)
                 (conj (history_independent_BoolWriter _ _ _ _ _ _ _ _ _)
                 (conj (history_independent_argbBuf _ _ _ _ _ _ _ _ _)
                       (history_independent_parallelState _ _ _ _ _ _ _ _ _)))))).
 Qed.
-Print Assumptions C11_history_independent_encoders_and_lossless_decoder.
+Print Assumptions C11_history_independent_lossless_and_buffers.
+
+(** the lossy encoder: only with TokenBuffer.mbStart (hence [tokens]) reset as well *)
+Theorem C11_history_independent_VP8Encoder_partial :
+  forall (Args Out Val Shape : Type) (shape : Args -> Val -> Shape)
+         (init : Args -> string -> Val) (nilv : Val)
+         (gate : Args -> (string -> Val) -> bool) (run : Args -> (string -> Val) -> Out * (string -> Val)),
+    hist_indep Args Out Val Shape shape init nilv gate run
+               F.lossy_VP8Encoder_fields class_VP8Encoder (assigned_VP8Encoder ++ ["tokens"]) released_VP8Encoder.
+Proof. exact history_independent_VP8Encoder_partial. Qed.
+Print Assumptions C11_history_independent_VP8Encoder_partial.
 
 (** the lossy decoder: only with intraL reset as well *)
 Theorem C11_history_independent_lossy_Decoder_partial :
